@@ -62,9 +62,9 @@ theorem writeRaw_archived (s : St) (a : Active) (b : List Nat) :
   · simp only []
     split <;> split <;> simp [flushAct]
 
-theorem mountNext_archived (s : St) (a : Active) (r : RotCfg) (force : Bool) (now : Nat)
-    (fl : Faults) : (mountNext s a r force now fl).1.archived = s.archived := by
-  unfold mountNext
+theorem mountNextCore_archived (s : St) (a : Active) (r : RotCfg) (force : Bool) (now : Nat)
+    (fl : Faults) : (mountNextCore s a r force now fl).1.archived = s.archived := by
+  unfold mountNextCore
   split
   · rfl
   · simp only []
@@ -82,6 +82,13 @@ theorem mountNext_archived (s : St) (a : Active) (r : RotCfg) (force : Bool) (no
           · simp at hpre; rw [← hpre.1]
         · simp at hpre; rw [← hpre.1]
       split <;> simp [openFile_archived, hs', flushAct]
+
+theorem mountNext_archived (s : St) (a : Active) (r : RotCfg) (force : Bool) (now : Nat)
+    (fl : Faults) : (mountNext s a r force now fl).1.archived = s.archived := by
+  unfold mountNext
+  split
+  · rfl
+  · exact mountNextCore_archived (flushAct s a).1 (flushAct s a).2 r true now fl
 
 theorem writeBuffer_some_archived (s : St) (a : Active) (b : List Nat) (now : Nat) (fl : Faults)
     (hact : s.act = some a) : (writeBuffer s b now fl).1.archived = s.archived := by
@@ -1581,12 +1588,12 @@ theorem openFile_new' (s : St) (n : FName) (now : Nat) (h : s.dir.get n = none) 
 def movedHandle (a : Active) (renamed : Bool) (t : FName) : FName :=
   if renamed && a.handle = curN then t else a.handle
 
-theorem mountNext_numbers_gen (s : St) (a : Active) (r : RotCfg) (force : Bool) (now : Nat)
+theorem mountNextCore_numbers_gen (s : St) (a : Active) (r : RotCfg) (force : Bool) (now : Nat)
     (hn : r.naming = .numbers) (hcl : r.cleanup = none)
     (h : (force || rotationNecessary r a now) = true) (d1 : Dir) (renamed : Bool)
     (hren : s.dir.rename curN ⟨some (.num a.idx), false⟩ = (d1, renamed))
     (hget : d1.get curN = none) :
-    ∃ s', mountNext s a r force now noFaults =
+    ∃ s', mountNextCore s a r force now noFaults =
         (s', ⟨curN, curN, [], false, if renamed then a.idx + 1 else a.idx, a.stamp, 0,
           createdOr s'.dir curN now⟩, false) ∧ s'.cfg = s.cfg ∧ s'.extCtr = s.extCtr ∧
       s'.dir = (d1.set curN ⟨[], now⟩).append (movedHandle a renamed ⟨some (.num a.idx), false⟩)
@@ -1596,14 +1603,14 @@ theorem mountNext_numbers_gen (s : St) (a : Active) (r : RotCfg) (force : Bool) 
   let h' := movedHandle a renamed ⟨some (.num a.idx), false⟩
   refine ⟨{ s2 with dir := s2.dir.append h' a.pending }, ?_, hc2, he2, by simp [hd2, h']⟩
   cases renamed <;> by_cases hh : a.handle = curN <;>
-    simp [mountNext, h, hn, hr0, hren, hh, ho, flushAct, cleanup, hcl, movedHandle, h']
+    simp [mountNextCore, h, hn, hr0, hren, hh, ho, flushAct, cleanup, hcl, movedHandle, h']
 
-theorem mountNext_timestamps_gen (s : St) (a : Active) (r : RotCfg) (force : Bool) (now : Nat)
+theorem mountNextCore_timestamps_gen (s : St) (a : Active) (r : RotCfg) (force : Bool) (now : Nat)
     (hn : r.naming = .timestamps) (hcl : r.cleanup = none)
     (h : (force || rotationNecessary r a now) = true) (d1 : Dir) (renamed : Bool)
     (hren : s.dir.rename curN ⟨some (collisionFree s.dir a.stamp), false⟩ = (d1, renamed))
     (hget : d1.get curN = none) :
-    ∃ s', mountNext s a r force now noFaults =
+    ∃ s', mountNextCore s a r force now noFaults =
         (s', ⟨curN, curN, [], false, a.idx, now, 0, createdOr s'.dir curN now⟩, false) ∧
       s'.cfg = s.cfg ∧ s'.extCtr = s.extCtr ∧
       s'.dir = (d1.set curN ⟨[], now⟩).append
@@ -1614,7 +1621,7 @@ theorem mountNext_timestamps_gen (s : St) (a : Active) (r : RotCfg) (force : Boo
   let h' := movedHandle a renamed ⟨some (collisionFree s.dir a.stamp), false⟩
   refine ⟨{ s2 with dir := s2.dir.append h' a.pending }, ?_, hc2, he2, by simp [hd2, h']⟩
   cases renamed <;> by_cases hh : a.handle = curN <;>
-    simp [mountNext, h, hn, hr0, hren, hh, ho, flushAct, cleanup, hcl, movedHandle, h', hcr]
+    simp [mountNextCore, h, hn, hr0, hren, hh, ho, flushAct, cleanup, hcl, movedHandle, h', hcr]
 
 theorem ChronAct.nodup_snoc {cfg d ctr a L0 f G0 g} (h : ChronAct cfg d ctr a L0 f G0 g)
     (hne : a.handle ≠ cnOf cfg) (f' new : File) :
@@ -1736,13 +1743,13 @@ theorem initState_rot {cfg : Cfg} (hc : CfgA cfg) (s : St) (now : Nat) (r : RotC
     · simp [initState, hr, hn, happ, happ1, hr0, rename_nil, ho, cleanup, hcl, hd1, hcr]
     · simp only [hd1]; rfl
 
-/-- a rotation (forced or due) closes the group of the file behind the descriptor — wherever
+/-- the rotation proper closes the group of the file behind the descriptor — wherever
     that file is — and opens a new file at the path -/
-theorem mountNext_chron {cfg : Cfg} (hc : CfgA cfg) {s : St} {a : Active} {L0 f G0 g}
+theorem mountNextCore_chron {cfg : Cfg} (hc : CfgA cfg) {s : St} {a : Active} {L0 f G0 g}
     (r : RotCfg) (force : Bool) (now : Nat) (hcfg : s.cfg = cfg) (hr : cfg.rot = some r)
     (hca : ChronAct cfg s.dir s.extCtr a L0 f G0 g)
     (h : (force || rotationNecessary r a now) = true) :
-    ∃ s' a' L0' f' G0' g', mountNext s a r force now noFaults = (s', a', false) ∧ s'.cfg = cfg ∧
+    ∃ s' a' L0' f' G0' g', mountNextCore s a r force now noFaults = (s', a', false) ∧ s'.cfg = cfg ∧
       ChronAct cfg s'.dir s'.extCtr a' L0' f' G0' g' ∧ G0'.flatten ++ g' = G0.flatten ++ g := by
   obtain ⟨-, hcl, hnm⟩ := hc
   have hcl := hcl r hr
@@ -1761,7 +1768,7 @@ theorem mountNext_chron {cfg : Cfg} (hc : CfgA cfg) {s : St} {a : Active} {L0 f 
           cases heq
           exact absurd (h2 a.idx rfl) (Nat.lt_irrefl _))
       (Nat.le_succ _) (by intro m hm; cases hm; exact Nat.lt_succ_self _)
-    obtain ⟨s', he, hc', hx', hd'⟩ := mountNext_numbers_gen s a r force now hn hcl h d1 renamed hren hget
+    obtain ⟨s', he, hc', hx', hd'⟩ := mountNextCore_numbers_gen s a r force now hn hcl h d1 renamed hren hget
     obtain ⟨L0', hca'⟩ := hall ⟨curN, curN, [], false, if renamed then a.idx + 1 else a.idx,
       a.stamp, 0, createdOr s'.dir curN now⟩ rfl rfl rfl rfl
     refine ⟨s', _, L0', ⟨[], now⟩, G0 ++ [g], [], he, hc'.trans hcfg, ?_, by simp⟩
@@ -1780,12 +1787,24 @@ theorem mountNext_chron {cfg : Cfg} (hc : CfgA cfg) {s : St} {a : Active} {L0 f 
         rw [heq])
       (Nat.le_refl _) (by rw [hti]; intro m hm; cases hm)
     obtain ⟨s', he, hc', hx', hd'⟩ :=
-      mountNext_timestamps_gen s a r force now hn hcl h d1 renamed hren hget
+      mountNextCore_timestamps_gen s a r force now hn hcl h d1 renamed hren hget
     obtain ⟨L0', hca'⟩ := hall ⟨curN, curN, [], false, a.idx, now, 0, createdOr s'.dir curN now⟩
       rfl rfl rfl (by cases renamed <;> rfl)
     refine ⟨s', _, L0', ⟨[], now⟩, G0 ++ [g], [], he, hc'.trans hcfg, ?_, by simp⟩
     rw [← hd', ← hx'] at hca'
     exact hca'
+
+/-- a rotation (forced or due) flushes the buffer into the file behind the descriptor, closes
+    the group of that file — wherever it is — and opens a new file at the path -/
+theorem mountNext_chron {cfg : Cfg} (hc : CfgA cfg) {s : St} {a : Active} {L0 f G0 g}
+    (r : RotCfg) (force : Bool) (now : Nat) (hcfg : s.cfg = cfg) (hr : cfg.rot = some r)
+    (hca : ChronAct cfg s.dir s.extCtr a L0 f G0 g)
+    (h : (force || rotationNecessary r a now) = true) :
+    ∃ s' a' L0' f' G0' g', mountNext s a r force now noFaults = (s', a', false) ∧ s'.cfg = cfg ∧
+      ChronAct cfg s'.dir s'.extCtr a' L0' f' G0' g' ∧ G0'.flatten ++ g' = G0.flatten ++ g := by
+  rw [mountNext_due s a r force now noFaults h]
+  exact mountNextCore_chron hc (s := (flushAct s a).1) (a := (flushAct s a).2) r true now hcfg hr
+    (flush_chron hca) rfl
 
 /-- `write_buffer` on a mounted rotating writer -/
 theorem write_some_chron {cfg : Cfg} (hc : CfgA cfg) {s : St} {a : Active} {L0 f G0 g}
